@@ -40,6 +40,7 @@ const (
 	tgAppCmdComment
 	tgSharedEdit
 	tgSharedShift
+	tgToolCmdComment
 	tgGenExtra
 	numToggles
 )
@@ -48,7 +49,7 @@ var toggleNames = []string{
 	"append-byte-to-f1", "shift-byte-f1-end-to-f2-start", "add-file-under-glob", "rename-file-under-glob",
 	"lib-command-comment-only", "lib-command-changes-output", "lib-declare-extra-output",
 	"lib-fingerprint-value", "lib-fingerprint-move-equals-sign", "app-alias-edge-to-direct-edge",
-	"edit-app-input", "edit-tool-input", "switch-platform", "move-gen-input-to-other-declared-name", "app-command-comment-only", "edit-file-behind-symlinked-input-same-length", "shift-byte-between-files-behind-two-adjacent-symlinked-inputs", "gen-declares-output-with-same-bytes-as-lib-extra",
+	"edit-app-input", "edit-tool-input", "switch-platform", "move-gen-input-to-other-declared-name", "app-command-comment-only", "edit-file-behind-symlinked-input-same-length", "shift-byte-between-files-behind-two-adjacent-symlinked-inputs", "tool-command-comment-only", "gen-declares-output-with-same-bytes-as-lib-extra",
 }
 
 type wsState struct {
@@ -191,8 +192,11 @@ echo "end $GROG_TARGET" >> "$VTRACE"`
 		toolIn = "tool-v2"
 	}
 	s.Files["b/tool.in"] = hist.File{Content: toolIn}
-	toolCmd := traceStart + `
-printf '#!/bin/sh\necho "made by %s"\n' "$(cat tool.in)" > tool.sh
+	toolCmd := traceStart + "\n"
+	if w.T[tgToolCmdComment] {
+		toolCmd += "# a comment: the tool is rebuilt (rewritten in place) but comes out identical\n"
+	}
+	toolCmd += `printf '#!/bin/sh\necho "made by %s"\n' "$(cat tool.in)" > tool.sh
 echo "end $GROG_TARGET" >> "$VTRACE"`
 	s.Targets = append(s.Targets, hist.Target{Pkg: "b", Name: "tool", Command: toolCmd, Inputs: []string{"tool.in"}, BinOutput: "tool.sh"})
 	// gen declares two literal (non-glob) inputs of which only one exists; the toggle moves the
